@@ -155,7 +155,7 @@ macro_rules! evict_all {
 
 macro_rules! stress_map {
     ($name:ident, $ty:ty, $lru:expr) => {
-        fn $name(threads: usize, millis: u64, seed: u64, nkeys: u32, stop_on: Option<String>) -> Report {
+        fn $name(threads: usize, millis: u64, seed: u64, nkeys: u32, stop_on: Option<String>, limits: bool) -> Report {
             let map: Arc<$ty> = Arc::new(<$ty>::new());
             let sh = Arc::new(Shared::new(nkeys as usize, stop_on));
             let mut handles = Vec::new();
@@ -167,7 +167,13 @@ macro_rules! stress_map {
                     while !sh.stop.load(Ordering::Relaxed) {
                         let k = rng.below(nkeys as u64) as u32;
                         let limit = std::num::NonZeroUsize::new(1 + rng.below(nkeys as u64) as usize).unwrap();
-                        let r = catch_unwind(AssertUnwindSafe(|| match rng.below(11) {
+                        // large populations: the soft-limited calls and the sweeps over all entries (stream, expiry) become
+                        // plain calls, so that the population is not cut down all the time
+                        let mut choice = rng.below(11);
+                        if !limits && (choice == 4 || choice == 5 || choice == 9 || choice == 10) {
+                            choice = 0;
+                        }
+                        let r = catch_unwind(AssertUnwindSafe(|| match choice {
                             0 | 1 => {
                                 let g = map.blocking_lock_owned(k, SyncLimit::no_limit()).unwrap();
                                 use_guard!(sh, g, rng, "blocking_lock_owned");
@@ -459,10 +465,10 @@ fn stress_pool(threads: usize, millis: u64, seed: u64, nkeys: u32, stop_on: Opti
     Report { ops: sh.ops.load(Ordering::Relaxed), violations: v }
 }
 
-pub fn run(kind: Kind, threads: usize, millis: u64, seed: u64, nkeys: u32, stop_on: Option<String>) -> Report {
+pub fn run(kind: Kind, threads: usize, millis: u64, seed: u64, nkeys: u32, stop_on: Option<String>, limits: bool) -> Report {
     match kind {
-        Kind::HashMap => stress_hashmap(threads, millis, seed, nkeys, stop_on),
-        Kind::Lru => stress_lru(threads, millis, seed, nkeys, stop_on),
+        Kind::HashMap => stress_hashmap(threads, millis, seed, nkeys, stop_on, limits),
+        Kind::Lru => stress_lru(threads, millis, seed, nkeys, stop_on, limits),
         Kind::Pool => stress_pool(threads, millis, seed, nkeys, stop_on),
     }
 }
